@@ -97,28 +97,29 @@ def ensure_mir(features=()):
     return out
 
 
-def ensure_bridge(profile='dev', ignore_case=False):
+def ensure_bridge(profile='dev', ignore_case=False, sync=False):
     """-> path of the bridge binary built against /repo's current tree"""
     hh = repo_hash()
-    name = 'bridge-%s%s' % (profile, '-ic' if ignore_case else '')
+    name = 'bridge-%s%s%s' % (profile, '-ic' if ignore_case else '', '-sync' if sync else '')
     out = os.path.join(CACHE, 'bin', hh, name)
     if os.path.exists(out):
         return out
-    with Lock('bridge' + ('-ic' if ignore_case else '')):
+    with Lock('bridge' + ('-ic' if ignore_case else '') + ('-sync' if sync else '')):
         if os.path.exists(out):
             return out
-        src = os.path.join(CACHE, 'bridge-src')
+        src = os.path.join(CACHE, 'bridge-src' + ('-ic' if ignore_case else '') + ('-sync' if sync else ''))
         os.makedirs(os.path.join(src, 'src'), exist_ok=True)
         toml = open(os.path.join(VERIF, 'bridge', 'Cargo.toml')).read().replace('path = "/repo"', 'path = "%s"' % REPO)
         open(os.path.join(src, 'Cargo.toml'), 'w').write(toml)
         shutil.copy(os.path.join(VERIF, 'bridge', 'src', 'main.rs'), os.path.join(src, 'src', 'main.rs'))
         shutil.copy(os.path.join(REPO, 'Cargo.lock'), os.path.join(src, 'Cargo.lock'))
-        tdir = os.path.join(CACHE, 'target' + ('-ic' if ignore_case else ''))
+        tdir = os.path.join(CACHE, 'target' + ('-ic' if ignore_case else '') + ('-sync' if sync else ''))
         cmd = ['cargo', 'build', '--offline']
         if profile == 'release':
             cmd.append('--release')
-        if ignore_case:
-            cmd += ['--features', 'ignore_case']
+        feats = [f for f, on in (('ignore_case', ignore_case), ('sync', sync)) if on]
+        if feats:
+            cmd += ['--features', ','.join(feats)]
         env = dict(ENV, CARGO_TARGET_DIR=tdir)
         r = subprocess.run(cmd, cwd=src, env=env, stdout=subprocess.PIPE, stderr=subprocess.PIPE)
         if r.returncode != 0:
@@ -135,8 +136,8 @@ def ensure_bridge(profile='dev', ignore_case=False):
 class Bridge:
     """JSON-lines client of the native bridge"""
 
-    def __init__(self, profile='dev', ignore_case=False):
-        self.path = ensure_bridge(profile, ignore_case)
+    def __init__(self, profile='dev', ignore_case=False, sync=False):
+        self.path = ensure_bridge(profile, ignore_case, sync)
         self.proc = subprocess.Popen([self.path], stdin=subprocess.PIPE, stdout=subprocess.PIPE,
                                      stderr=subprocess.DEVNULL)
         self.calls = 0
